@@ -112,6 +112,23 @@ Proof. vm_compute. reflexivity. Qed.
 Example clock_locked_accepted :
   check_program (clock_contracts [("Process", process_clock_locked)]) [("Process", process_clock_locked)] ["Process"] [] [] = [].
 Proof. vm_compute. reflexivity. Qed.
+(* registry map mutations (pseudo field roots!, written at every Store / Delete on a graph's roots): a Delete after the lock was
+   released is rejected (seeded C04-19), inside the critical section accepted *)
+Definition registry_contracts (pr : program) : contracts :=
+  {| guard_of := fun f => if String.eqb f "graph.roots!" then GLock "Broker.lock" else GFree; requires := fun _ => [];
+     acquires := fun f => assocd f (infer 6 (fun _ => []) pr []) []; user_acquires := fun _ => []; constructors := []; waived := [];
+     rank := fun _ => 5%nat |}.
+Definition remove_delete_late : prog :=
+  PSeq (PAct (Acq "Broker.lock" MW)) (PSeq (PAct (Wr "nodeUsage.referenceCount")) (PSeq (PAct (Rel "Broker.lock" MW)) (PSeq (PAct (Wr "graph.roots!")) PRet))).
+Definition remove_delete_locked : prog :=
+  PSeq (PAct (Acq "Broker.lock" MW)) (PSeq (PDefer (Rel "Broker.lock" MW)) (PSeq (PAct (Wr "nodeUsage.referenceCount")) (PSeq (PAct (Wr "graph.roots!")) PRet))).
+Example delete_after_unlock_rejected :
+  flat_complaints (check_program (registry_contracts [("RemovePipeline", remove_delete_late)]) [("RemovePipeline", remove_delete_late)] ["RemovePipeline"] [] [])
+  = [("RemovePipeline", KUnguardedWrite, "graph.roots!")].
+Proof. vm_compute. reflexivity. Qed.
+Example delete_under_lock_accepted :
+  check_program (registry_contracts [("RemovePipeline", remove_delete_locked)]) [("RemovePipeline", remove_delete_locked)] ["RemovePipeline"] [] [] = [].
+Proof. vm_compute. reflexivity. Qed.
 (* an unaudited concurrency construct *)
 Example unaudited_rejected :
   flat_complaints (unaudited [("process", "go")] [("process", process_body); ("Reopen", PSeq (PGo (PSeq (PAct (User "wait:chan-send")) PRet)) PRet)])
